@@ -326,3 +326,14 @@ with parse_var_names (fuel : nat) (w : walker) (level : N) (acc : list text) {st
 Definition parse_text (t : text) : pres expr :=
   let w := {| tail := t; cur := 0; lim := bytes_len t |} in
   parse_expr (200 * (S (length t))) 0 w.
+
+(* the binary-operator table of this model rendered with the Rust names, for the table obligation *)
+From Coq Require Import String.
+Definition binop_name (o : binop) : string :=
+  match o with
+  | Assign => "Assign" | Add => "Add" | Sub => "Sub" | Mul => "Mul" | Div => "Div" | Mod => "Mod" | Shl => "Shl" | Shr => "Shr"
+  | And => "And" | Or => "Or" | Xor => "Xor" | Eq => "Eq" | Ne => "Ne" | Lt => "Lt" | Le => "Le" | Gt => "Gt" | Ge => "Ge"
+  | LazyAnd => "LazyAnd" | LazyOr => "LazyOr" | Concat => "Concat"
+  end%string.
+Definition level_ops_as_strings : list (list (string * string)) :=
+  map (map (fun ko => (tkind_name (fst ko), binop_name (snd ko)))) level_ops.
